@@ -15,6 +15,7 @@ import random
 from harness import core, lex
 
 PROP = "C09"
+TRACE_MODULES = ["Trace_C09"]
 VERSIONS = [("", 0), ("15.2(02)SY", 15), ("16.09.06", 16), ("9.3(8)", 9)]
 PLATS = ["asa", "ios", "nxos"]
 
